@@ -57,6 +57,15 @@ func emit(p *interpgen.Program) interpgen.Result {
 		c.Violate("Engine.Execute/debugger-changes-verdict", plain+" vs "+res.Obs, p)
 	}
 	frameCheck(p, res)
+	if c.Prop != "C05" && res.TraceBytes > 8<<20 {
+		// the snapshots of this run add up to more than 8 MB (deep stacks of large items over hundreds of
+		// steps): the Go-level predicates above have been evaluated; hashing the trace inside Coq would take
+		// minutes, so the model comparison of such programs is left to C05's limit programs
+		c.Tally(p.Kind + "/trace-too-large-for-model")
+		c.Case("", p, key(p), res.Steps > 0)
+		return res
+	}
+	c.Weigh(res.TraceBytes / 64)
 	c.Case(wrapProg(interpgen.CoqCase(p, res)+" 0"), p, key(p), res.Steps > 0)
 	return res
 }
